@@ -396,12 +396,12 @@ def check_seq(seq, stats):
             ms = re.search(r"\bsa=(\S+)/(\S+)", obs)
             if mi and ms:
                 for v_ in (ms.group(1), ms.group(2)):
-                    if v_ != "err" and v_ != mi.group(1):
+                    if not v_.startswith("err") and v_ != mi.group(1):
                         hits.append(hit("C14", seq, no, raw, f"SelectArchetype::archetype_id() reports {v_} for a handle whose archetype_id() is {mi.group(1)}", "select-archetype-id"))
                         hits.append(hit("C15", seq, no, raw, f"SelectArchetype reports id {v_} for the archetype whose ARCHETYPE_ID is {mi.group(1)}", "select-archetype-id"))
                         break
                 declared = int(mi.group(1)) in id2arch
-                if declared and "err" in (ms.group(1), ms.group(2)):
+                if declared and (ms.group(1).startswith("err") or ms.group(2).startswith("err")):
                     hits.append(hit("C14", seq, no, raw, f"SelectArchetype::try_from fails for the declared archetype id {mi.group(1)}", "select-archetype-err"))
             mtf = re.search(r"\btf=\[(.*?)\]", obs)
             if mi and mtf:
@@ -414,10 +414,16 @@ def check_seq(seq, stats):
                     same = ids[a_] == int(mi.group(1))
                     if same and not (tfv.startswith("ok:") and fav.startswith("ok:")):
                         hits.append(hit("C14", seq, no, raw, f"conversion of a handle with archetype id {mi.group(1)} into its own archetype {a_} failed: try_from={tfv[:30]} from_any={fav[:30]}", "typed-conversion"))
-                    if not same and (tfv != "err" or not fav.startswith("!")):
+                    if not same and (not tfv.startswith("err") or not fav.startswith("!")):
                         hits.append(hit("C14", seq, no, raw, f"conversion of a handle with archetype id {mi.group(1)} into archetype {a_} (id {ids[a_]}) did not fail as documented: try_from={tfv[:40]} from_any={fav[:40]}", "typed-conversion"))
+                    elif not same and tfv != "err:InvalidEntityType":
+                        hits.append(hit("C14", seq, no, raw, f"try_from of a handle with archetype id {mi.group(1)} into archetype {a_} (id {ids[a_]}) fails with {tfv[4:]}; the documented error for a handle of the wrong type is EcsError::InvalidEntityType (InvalidRawEntity is what from_raw reports for a zero generation)", "error-variant"))
             msel = re.search(r"\bsel=(\S+)", obs)
-            if mi and msel and msel.group(1) != "err":
+            if mi and msel and msel.group(1).startswith("err") and msel.group(1) != "err:InvalidEntityType":
+                hits.append(hit("C14", seq, no, raw, f"SelectEntity / SelectEntityDirect::try_from fails with {msel.group(1)[4:]}; the documented error for an undeclared archetype id is EcsError::InvalidEntityType", "error-variant"))
+            if mi and ms and any(v_.startswith("err") and v_ != "err:InvalidEntityType" for v_ in (ms.group(1), ms.group(2))):
+                hits.append(hit("C14", seq, no, raw, f"SelectArchetype::try_from fails with {ms.group(1)} / {ms.group(2)}; the documented error is EcsError::InvalidEntityType", "error-variant"))
+            if mi and msel and not msel.group(1).startswith("err"):
                 a_ = int(msel.group(1).split(":")[0])
                 if a_ < len(ids) and ids[a_] != int(mi.group(1)):
                     hits.append(hit("C14", seq, no, raw, f"SelectEntity picked archetype {a_} (id {ids[a_]}) for a handle with archetype id {mi.group(1)}", "select-entity"))
@@ -489,6 +495,8 @@ def check_seq(seq, stats):
                 ver = op[4] if op[2] == "any" else op[5]
                 if ver != "0":
                     hits.append(hit("C14", seq, no, raw, "from_raw rejected a non-zero generation", "from-raw"))
+                elif obs.split()[0] != "err:InvalidRawEntity":
+                    hits.append(hit("C14", seq, no, raw, f"from_raw with a zero generation fails with {obs.split()[0][4:]}; the documented error is EcsError::InvalidRawEntity", "error-variant"))
             if op[2] in ("any", "ent") and obs.startswith("ok"):
                 ver = op[4] if op[2] == "any" else op[5]
                 if ver == "0":
